@@ -57,6 +57,9 @@ pub struct DCfg {
     /// Some(with_channeled): a subscriber's on_unsubscribe panics inside unsubscribe() (the caller catches
     /// it), nothing is dispatched afterwards, then the store is stopped: everybody else is still released
     pub poison: Option<bool>,
+    /// one SelectorSubscriber object is notified by this many threads at once (as when it is registered with
+    /// several stores); every thread presents the same sequence of values in lock step
+    pub sel_race: Option<usize>,
 }
 
 pub fn gen(rng: &mut Rng, tiny: bool, focus: &str) -> DCfg {
@@ -136,6 +139,7 @@ pub fn gen(rng: &mut Rng, tiny: bool, focus: &str) -> DCfg {
             Some((_, p)) if p != POL_BLOCK && (cfg!(miri) || !tiny) && rng.chance(1, if cfg!(miri) { 2 } else { 12 }) => *rng.pick(&[700u64, 900, 1400]),
             _ => 0,
         },
+        sel_race: if (focus == "C16" && rng.chance(1, 8)) || rng.chance(1, 40) { Some(rng.range(2, 4) as usize) } else { None },
         poison: if rng.chance(1, 16) { Some(rng.chance(2, 3)) } else { None },
         burst: if rng.chance(1, 10) { Some((rng.range(2, 4) as usize, if tiny { rng.range(1, 2) } else { rng.range(2, 12) } as usize)) } else { None },
     }
@@ -173,6 +177,7 @@ pub fn describe(c: &DCfg) -> J {
         ("whole_run_sentinel", J::B(!c.no_sentinel)),
         ("lone_subscriber_handover", J::B(c.lone)),
         ("on_unsubscribe_panics_inside_unsubscribe_then_stop", c.poison.map(|ch| J::s(if ch { "with a parked channeled subscriber holding a backlog" } else { "direct subscribers only" })).unwrap_or(J::Null)),
+        ("selector_subscriber_notified_by_threads_in_lock_step", c.sel_race.map(|n| J::U(n as u64)).unwrap_or(J::Null)),
         ("burst_unsubscribe", c.burst.map(|(k, r)| J::s(format!("{} rounds: {} short-lived subscribers + one that stays, the {} unsubscribed by {} threads released together", r, k, k, k))).unwrap_or(J::Null)),
     ])
 }
@@ -306,7 +311,54 @@ pub fn execute_poison(seed: u64, how: u32, n_red: u32, perturb: u8, with_chan: b
     w
 }
 
+pub const MARK_SELRACE: u32 = 12;
+
+/// One SelectorSubscriber, n threads calling on_notify with the same value at the same moment, value
+/// changing every round. Comparing, remembering and delivering are one atomic step per call, so whatever
+/// the interleaving the delivered values never repeat back to back (exactly one delivery per round here).
+fn execute_selrace(c: &DCfg, seed: u64, n: usize) -> W {
+    let ctx = Ctx::new(ScriptSrc::Table(vec![Script::plain()]), 3, seed, c.perturb, false);
+    let w = W::new(ctx, vec![StoreCfg { policy: POL_BLOCK, cap: 16, n_red: 1, n_mw: 0, name: "rsvd".into(), ctor: 0 }]);
+    let delivered: Arc<std::sync::Mutex<Vec<(u8, u32)>>> = Arc::new(std::sync::Mutex::new(Vec::new()));
+    let d2 = delivered.clone();
+    let sub = rs_store::SelectorSubscriber::new(SelSelector, move |v: u8, a: Act| d2.lock().unwrap().push((v, a.id)));
+    let rounds = if cfg!(miri) { 5 } else { 300 };
+    let arrived = std::sync::atomic::AtomicUsize::new(0);
+    std::thread::scope(|sc| {
+        for t in 0..n {
+            let (sub, arrived) = (&sub, &arrived);
+            std::thread::Builder::new().name(format!("notifier{}", t)).spawn_scoped(sc, move || {
+                let mut st = St::initial(0);
+                for k in 0..rounds {
+                    arrived.fetch_add(1, std::sync::atomic::Ordering::AcqRel);
+                    while arrived.load(std::sync::atomic::Ordering::Acquire) < (k + 1) * n {
+                        if cfg!(miri) {
+                            std::thread::yield_now();
+                        } else {
+                            std::hint::spin_loop();
+                        }
+                    }
+                    st.sel = (k % 3) as u8;
+                    st.steps = k as u64 + 1;
+                    let act = Act { id: act_id(0, t as u32 + 1, k as u32 + 1), script: 0 };
+                    <rs_store::SelectorSubscriber<St, Act, SelSelector, u8> as rs_store::Subscriber<St, Act>>::on_notify(sub, &st, &act);
+                }
+            }).unwrap();
+        }
+    });
+    let d = delivered.lock().unwrap().clone();
+    let dup = d.windows(2).position(|p| p[0].0 == p[1].0);
+    let wrong = d.iter().position(|(v, a)| *v != ((id_seq(*a) - 1) % 3) as u8);
+    let code = if let Some(i) = dup { i as u64 } else if wrong.is_some() || d.len() != rounds { u64::MAX - 1 } else { u64::MAX };
+    w.ctx.ev(K::Mark, 0, dup.map(|i| d[i].0 as u32).unwrap_or(0), MARK_SELRACE, code, d.len() as u64, n as u8);
+    w.stop(0, STOP_STOP);
+    w
+}
+
 pub fn execute(c: &DCfg, seed: u64) -> W {
+    if let Some(n) = c.sel_race {
+        return execute_selrace(c, seed, n);
+    }
     if let Some(ch) = c.poison {
         return execute_poison(seed, if seed % 4 == 0 { STOP_TRAIT } else { STOP_STOP }, c.n_red, c.perturb, ch);
     }
@@ -985,6 +1037,18 @@ pub fn c14(h: &Hist, s: u8, v: &mut Verdicts) {
 }
 
 pub fn c16(h: &Hist, s: u8, v: &mut Verdicts) {
+    if let Some(m) = h.evs.iter().find(|e| e.k == K::Mark && e.idx == MARK_SELRACE) {
+        v.evaluated.insert("C16");
+        let rounds = if cfg!(miri) { 5 } else { 300 };
+        if m.x == u64::MAX - 1 {
+            v.fail("C16", format!("a SelectorSubscriber notified by {} threads at once ({} rounds, one new value per round) made {} deliveries that are not one per round with that round's value", m.r, rounds, m.y));
+        } else if m.x != u64::MAX {
+            v.fail("C16", format!("a SelectorSubscriber notified by {} threads at once delivered the value {} twice in a row (deliveries #{} and #{} of {}): comparing with the last delivered value and remembering the new one is not one atomic step", m.r, m.a, m.x, m.x + 1, m.y));
+        }
+        v.count("c16.concurrent_notify_rounds", rounds);
+        v.nontrivial.insert("C16");
+        return;
+    }
     let sels: Vec<&SubInfo> = h.subs.iter().filter(|si| si.store == s && si.kind == SK_SELECTOR).collect();
     if sels.is_empty() {
         return;
